@@ -633,6 +633,13 @@ def rule_each(env, shared):
                                     if enum_ok and "Iterator::next" in fmt(E):
                                         good = True
                                         detail = "f(chunk.begin_idx + i, value) with (i, value) from chunk.values.enumerate()"
+                                if not good:
+                                    # an explicit per-chunk offset instead of enumerate(): `let mut k = 0; for v in chunk.values
+                                    # { f(begin + k, v); k += 1 }`
+                                    okc, why_c = _explicit_offset(a, ctx, ev, payload, bi2, t2, S, i0, v0)
+                                    if okc:
+                                        good = True
+                                        detail = "f(chunk.begin_idx + k, value) with k counting the elements of the chunk visited so far"
                 out.append(Ob("EACH", k4, "ok" if good else "viol", a.file_line(t["loc"]),
                               "index passed to the function is the pulled index: " + detail if good else
                               "enumerate_for_each (%s arm) does not pass the pulled index with its own element to the function" % kind,
@@ -748,6 +755,76 @@ def rule_each(env, shared):
                           "fold does not thread a single accumulator (initialised with `neutral`, updated by every call of the "
                           "function, returned at the end)", True))
     return out
+
+
+def _explicit_offset(a, ctx, ev, payload, call_bb, call_t, S, i0, v0):
+    """`begin + k` where begin is the begin index of the pulled chunk and k a local that is set to 0 once per chunk (inside
+    the outer loop S, outside the inner loop over chunk.values), incremented by one exactly once per element on every
+    path of the inner loop, *after* the call of the function, and v the element the inner `next()` returned"""
+    x, y = unref(i0[2]), unref(i0[3])
+    for bgn, off in ((x, y), (y, x)):
+        if not (bgn[0] == "field" and bgn[2] == 0 and bgn[1] == payload):
+            continue
+        if not (off[0] == "phi" and ("int", 0) in off[1] and any(z[0] == "bin" and z[1] == "Add" and z[3] == ("int", 1)
+                                                                   for z in off[1])):
+            continue
+        inner = [lb for (_h, lb) in a.natural_loops() if call_bb in lb and len(lb) < len(S)]
+        if not inner:
+            return False, "no inner loop"
+        I = min(inner, key=len)
+        nexts = [(bj, tj) for bj, tj, cj in a.calls() if bj in I and cj.trait == "std::iter::Iterator" and cj.name == "next"]
+        if len(nexts) != 1:
+            return False, "inner loop polls more than one iterator"
+        nb_, nt_ = nexts[0]
+        src = fmt(ev.operand(ctx, nt_["args"][0]))
+        if not (fmt(payload) in src and ".values" in src):
+            return False, "inner loop is not over chunk.values"
+        if unref(v0) != unref(ev.payload(ctx, ev.local(ctx, nt_["dest"]["l"]))):
+            return False, "the value passed is not the element just pulled"
+        # the counter local: the operand of the addition that forms the index
+        tup_l = call_t["args"][1]["place"]["l"] if call_t["args"][1]["k"] in ("move", "copy") else None
+        cands = []
+        for bj, blk in enumerate(a.blocks):
+            if blk["cleanup"]:
+                continue
+            for st in blk["stmts"]:
+                if st["k"] == "assign" and st["rv"]["k"] == "binop" and st["rv"]["op"].startswith("Add") \
+                        and st["rv"]["b"].get("k") == "const" and st["rv"]["b"].get("int") == 1 \
+                        and st["rv"]["a"]["k"] in ("copy", "move") and not st["rv"]["a"]["place"]["p"] \
+                        and unref(ev.local(ctx, st["rv"]["a"]["place"]["l"])) == off:
+                    cands.append((bj, st))
+        if len(cands) != 1 or cands[0][0] not in I:
+            return False, "the offset is not incremented exactly once in the inner loop"
+        ib, ist = cands[0]
+        c_loc, tmp = ist["rv"]["a"]["place"]["l"], ist["place"]["l"]
+        zero_defs, other = [], 0
+        for bj, blk in enumerate(a.blocks):
+            if blk["cleanup"]:
+                continue
+            for st in blk["stmts"]:
+                if st["k"] == "assign" and st["place"]["l"] == c_loc and not st["place"]["p"]:
+                    rv = st["rv"]
+                    if rv["k"] == "use" and rv["op"].get("k") == "const" and rv["op"].get("int") == 0:
+                        zero_defs.append(bj)
+                    elif rv["k"] == "use" and rv["op"].get("place", {}).get("l") == tmp and bj in I:
+                        pass
+                    else:
+                        other += 1
+        if other or len(zero_defs) != 1 or zero_defs[0] not in S or zero_defs[0] in I:
+            return False, "the offset is not reset to 0 once per chunk"
+        st3 = a.term(nt_["target"]) if nt_.get("target") is not None else None
+        some3 = [bb for v, bb in st3["targets"] if v == 1] if st3 and st3["k"] == "switch" else []
+        if not some3 or (some3[0] != ib and a.paths_avoiding(some3[0], {nb_}, {ib})):
+            return False, "an element can be passed over without counting it"
+        tgt_i = a.term(ib).get("target") if a.term(ib)["k"] in ("assert", "call", "goto") else None
+        # the increment comes after the call within a round: from the increment the call is reached only through the next poll
+        start = ib
+        if call_bb == ib or a.paths_avoiding(start, {call_bb}, {nb_}):
+            return False, "the offset is incremented before the function is called"
+        if not a.dominates(zero_defs[0], nb_):
+            return False, "the reset does not precede the inner loop"
+        return True, ""
+    return False, "index is not begin + offset"
 
 
 def _is_user_fn_operand(a, op):
